@@ -144,7 +144,7 @@ func parseTransform(t string) (Transform, bool) {
 		var as []Atom
 		for _, a := range splitNE(f, "+") {
 			switch {
-			case a == "key" || a == "selects" || a == "selectsNE" || a == "label" || a == "nsIndex" || a == "valIndex" || a == "outIndex" || a == "keys" || a == "objName":
+			case a == "key" || a == "selects" || a == "selectsNE" || a == "label" || a == "nsIndex" || a == "valIndex" || a == "outIndex" || a == "nokeys" || a == "nilkeys" || a == "keys" || a == "objName":
 				as = append(as, Atom{Kind: a})
 			case strings.HasPrefix(a, "g"):
 				if n, err := strconv.Atoi(a[1:]); err == nil {
